@@ -107,14 +107,10 @@ fn run_case(case: &Value) -> (Value, Option<Ctx>) {
     let calls = case.get("calls").and_then(|v| v.as_array()).cloned().unwrap_or_default();
     let myproc = case.get("myproc").and_then(|v| v.as_u64()).unwrap_or(0);
 
-    // optional: make descriptor 0 free so that the library's first open gets fd 0
+    // optional: make descriptor 0 free (after the root has been opened) so that the library's
+    // next open gets descriptor number 0
     let close0 = case.get("close0").and_then(|v| v.as_bool()).unwrap_or(false);
     let mut saved0: i32 = -1;
-    if close0 {
-        saved0 = unsafe { libc::fcntl(0, libc::F_DUPFD_CLOEXEC, 200) };
-        unsafe { libc::close(0) };
-    }
-
     let mut ctx = Ctx { root: None, root_raw: -1, kept: Vec::new(), procfs: None };
     if !rootpath.is_empty() {
         marker("OPENROOT");
@@ -129,6 +125,10 @@ fn run_case(case: &Value) -> (Value, Option<Ctx>) {
             }
         }
         marker("END");
+    }
+    if close0 {
+        saved0 = unsafe { libc::fcntl(0, libc::F_DUPFD_CLOEXEC, 200) };
+        unsafe { libc::close(0) };
     }
     let mut results: Vec<Value> = Vec::new();
     let mut poisoned = false;
